@@ -496,3 +496,44 @@ pub fn corrupt(buf: &mut [u8], l: &Layout, rng: &mut Rng) -> Corruption {
         Corruption { desc: "random body".into() }
     }
 }
+
+
+/// The error kinds a reader may report for a buffer that does not hold its
+/// declared sections: the kind of the first section that does not fit; when
+/// the buffer ends inside the padding *between* two sections, the kind of
+/// either neighbour is "the corresponding error kind". For the string section
+/// only `expected` (the declared length) is fixed.
+pub fn acceptable_errors(buf: &[u8], expect_version: u32) -> Option<Vec<ErrKind>> {
+    let e = layout_walk(buf, expect_version).err()?;
+    let mut v = vec![e];
+    if buf.len() >= HEADER_LEN {
+        let nc = rd32(buf, 8) as u128;
+        let nm = rd32(buf, 12) as u128;
+        let nb = rd32(buf, 16) as u128;
+        let sb = rd32(buf, 20) as usize;
+        let len = buf.len() as u128;
+        let classes_end = HEADER_LEN as u128 + nc * CLASS_LEN as u128;
+        let pad = |x: u128| (8 - x % 8) % 8;
+        let members_off = classes_end + pad(classes_end);
+        let members_end = members_off + nm * MEMBER_LEN as u128;
+        let bp_off = members_end + pad(members_end);
+        let bp_end = bp_off + nb * MEMBER_LEN as u128;
+        let str_off = bp_end + pad(bp_end);
+        if len >= classes_end && len < members_off {
+            v.push(ErrKind::InvalidClasses);
+        }
+        if len >= bp_end && len < str_off {
+            v.push(ErrKind::InvalidMembers);
+            v.push(ErrKind::UnexpectedStringBytes { expected: sb, found: 0 });
+        }
+    }
+    Some(v)
+}
+
+/// Kind equality that fixes only the declared length of the string section.
+pub fn same_kind(got: &ErrKind, exp: &ErrKind) -> bool {
+    match (got, exp) {
+        (ErrKind::UnexpectedStringBytes { expected: a, found: f }, ErrKind::UnexpectedStringBytes { expected: b, .. }) => a == b && f < a,
+        _ => got == exp,
+    }
+}
